@@ -18,6 +18,8 @@ cd $WT
 cp $OUT/m$I.diff $DST/patch.diff
 cp $OUT/m${I}_demo.rs $DST/demo.rs
 DEMO_CMD=$(python3 -c "import json;print(json.load(open('$OUT/m$I.json'))['demo_cmd'])" 2>/dev/null | sed "s#out/m${I}_demo.rs#$DST/demo.rs#")
+# the demo command copies the demo into a tests/ directory that may not exist yet
+for d in $(echo "$DEMO_CMD" | grep -o '[a-z0-9_-]*/tests/' | sort -u); do mkdir -p $WT/$d; done
 # demo without the change
 ( eval "$DEMO_CMD" ) > $DST/demo_without.log 2>&1; RC_WITHOUT=$?
 git apply $DST/patch.diff || { echo "patch does not apply"; exit 2; }
